@@ -31,7 +31,11 @@ pub struct TestDesc {
 }
 
 fn unrelated(rng: &mut StdRng) -> String {
-    match rng.gen_range(0..4) {
+    match rng.gen_range(0..6) {
+        // a test component that was placed but never edited: no test data (it contributes no test, and the tests after it are
+        // still there)
+        4 => "    <visualElement>\n      <elementName>Testcase</elementName>\n      <elementAttributes/>\n      <pos x=\"5\" y=\"5\"/>\n    </visualElement>\n".into(),
+        5 => "    <visualElement>\n      <elementName>Testcase</elementName>\n      <elementAttributes>\n        <entry>\n          <string>Label</string>\n          <string>unedited</string>\n        </entry>\n      </elementAttributes>\n      <pos x=\"6\" y=\"6\"/>\n    </visualElement>\n".into(),
         0 => "    <visualElement>\n      <elementName>Add</elementName>\n      <elementAttributes>\n        <entry>\n          <string>Bits</string>\n          <int>4</int>\n        </entry>\n      </elementAttributes>\n      <pos x=\"400\" y=\"240\"/>\n    </visualElement>\n".into(),
         1 => "    <visualElement>\n      <elementName>Const</elementName>\n      <elementAttributes>\n        <entry>\n          <string>Label</string>\n          <string>NotAPin</string>\n        </entry>\n      </elementAttributes>\n      <pos x=\"0\" y=\"0\"/>\n    </visualElement>\n".into(),
         2 => "    <visualElement>\n      <elementName>Text</elementName>\n      <elementAttributes/>\n      <pos x=\"1\" y=\"2\"/>\n    </visualElement>\n".into(),
